@@ -157,9 +157,9 @@ func (t Ty) variantStruct(i int) Ty {
 // ---------------------------------------------------------------------------------------------
 // Universe of names. Prefix types share string prefixes on purpose (/foo vs /foobar, K07a).
 
-var prefixNames = []string{"/foo", "/foo/bar", "/foobar", "/a"}
+var prefixNames = []string{"/foo", "/foo/bar", "/foobar", "/a", "/number/n"} // the last one begins like a base type (K72)
 var singletonNames = []string{"/a", "/b", "/foo/x", "/true"}
-var plainNames = []string{"/c", "/foo", "/a", "/b", "/foo/x", "/foo/bar/y", "/foobar/z", "/a/b", "/true"}
+var plainNames = []string{"/c", "/foo", "/a", "/b", "/foo/x", "/foo/bar/y", "/foobar/z", "/a/b", "/true", "/number/n/x"}
 var labelPool = []string{"/l1", "/l2", "/l3"}
 
 const tagField = "/kind"
